@@ -17,3 +17,21 @@ Fixpoint index_of (n : text) (l : list text) : Z :=
   | [] => (-1)%Z
   | x :: l' => if text_eqb x n then 0%Z else let r := index_of n l' in if (r <? 0)%Z then (-1)%Z else (r + 1)%Z
   end.
+
+(* well-formed range arrays: what every public operation of hostlist.c produces from legal input.
+   A plain name has lo = hi = 0 (hostrange_create_single); a numbered range is non-empty and stays below
+   ULONG_MAX (hostrange_empty reads hi == ULONG_MAX as "empty"). *)
+Definition wf_range (r : hrange) : Prop :=
+  if hr_single r then hr_lo r = 0 /\ hr_hi r = 0 else hr_lo r <= hr_hi r /\ hr_hi r < ULONG_MAX.
+Definition wf (h : hostlist) : Prop := Forall wf_range h.
+
+(* the trailing digit run of a name, read as a number, is at most MAX_HOST_SUFFIX (F11) *)
+Definition suffix_small (n : text) : Prop :=
+  digit_val (rev (fst (span is_digit (rev n)))) <= PM.Gen.GenHL.MAX_HOST_SUFFIX.
+
+Fixpoint remove_at {A} (i : nat) (l : list A) : list A :=
+  match l, i with
+  | [], _ => []
+  | _ :: l', O => l'
+  | x :: l', S i' => x :: remove_at i' l'
+  end.
